@@ -147,7 +147,7 @@ impl MmioRegs {
             0x070 => {
                 let mut d = self.dev.borrow_mut();
                 d.log.push(TEvent::GetStatus);
-                d.status
+                d.read_status()
             }
             0x0fc => {
                 if let Some(mut f) = self.before_config_read.take() {
@@ -366,7 +366,7 @@ impl PciRegs {
                     self.reset_lag_left -= 1;
                     0x0f
                 } else {
-                    d.status as u64
+                    d.read_status() as u64
                 }
             }
             (0x15, 1) => {
